@@ -568,8 +568,25 @@ class ndarray:
     def nonzero(self):
         return nonzero(self)
 
-    def cumsum(self):
-        return cumsum(self)
+    def cumsum(self, axis=None, dtype=None):
+        return cumsum(self, axis=axis, dtype=dtype)
+
+    def ptp(self):
+        return ptp(self)
+
+    def argmax(self):
+        return argmax(self)
+
+    def argmin(self):
+        return argmin(self)
+
+    def clip(self, lo=None, hi=None):
+        return clip(self, lo, hi)
+
+    def __itruediv__(self, o):
+        r = self / o
+        self._d[:] = [self._coerce(v) for v in r._d]
+        return self
 
 
 def _truediv(a, b):
@@ -844,8 +861,12 @@ def concatenate(seq, axis=0):
     return ndarray(flat, (len(flat),), dt)
 
 
-def cumsum(a):
+def cumsum(a, axis=None, dtype=None):
     a = asarray(a)
+    if dtype is not None:
+        a = a.astype(dtype)
+    if a.ndim > 1 and axis is not None:
+        raise ShimGap('cumsum along an axis of a %d-d array' % a.ndim)
     out = []
     acc = None
     for v in a._d:
@@ -862,6 +883,84 @@ def nonzero(a):
         raise ShimGap('nonzero on %d-d' % a.ndim)
     idx = [i for i, v in enumerate(a._d) if bool(v)]
     return (ndarray(idx, (len(idx),), int64),)
+
+
+def flatnonzero(a):
+    return nonzero(asarray(a).ravel() if asarray(a).ndim != 1 else a)[0]
+
+
+def count_nonzero(a):
+    return len(nonzero(asarray(a).ravel() if asarray(a).ndim != 1 else a)[0])
+
+
+def ptp(a):
+    return amax(a) - amin(a)
+
+
+def argmax(a):
+    a = asarray(a)
+    if a.size == 0:
+        raise ValueError('attempt to get argmax of an empty sequence')
+    best = 0
+    for i in range(1, len(a._d)):
+        if a._d[i] > a._d[best]:
+            best = i
+    return best
+
+
+def argmin(a):
+    a = asarray(a)
+    if a.size == 0:
+        raise ValueError('attempt to get argmin of an empty sequence')
+    best = 0
+    for i in range(1, len(a._d)):
+        if a._d[i] < a._d[best]:
+            best = i
+    return best
+
+
+def clip(a, lo, hi):
+    return minimum(maximum(a, lo), hi) if lo is not None and hi is not None else (maximum(a, lo) if hi is None else minimum(a, hi))
+
+
+def full_like(a, value, dtype=None):
+    a = asarray(a)
+    return full(a.shape, value, dtype if dtype is not None else a.dtype)
+
+
+def ones_like(a, dtype=None):
+    a = asarray(a)
+    return ones(a.shape, dtype if dtype is not None else a.dtype)
+
+
+def array_equal(a, b):
+    a, b = asarray(a), asarray(b)
+    if a.shape != b.shape:
+        return False
+    return bool(all_(a == b)) if a.size else True
+
+
+def logical_and(a, b):
+    return _elementwise2(a, b, lambda x, y: _and(x if isinstance(x, (bool, SymBool)) else (x != 0), y if isinstance(y, (bool, SymBool)) else (y != 0)))
+
+
+def logical_or(a, b):
+    return _elementwise2(a, b, lambda x, y: _or(x if isinstance(x, (bool, SymBool)) else (x != 0), y if isinstance(y, (bool, SymBool)) else (y != 0)))
+
+
+def logical_not(a):
+    return _map(a, lambda x: _not(x if isinstance(x, (bool, SymBool)) else (x != 0)), 'b')
+
+
+def hstack(parts):
+    return concatenate([asarray(p_).ravel() if asarray(p_).ndim == 0 else p_ for p_ in parts])
+
+
+def flip(a):
+    a = asarray(a)
+    if a.ndim != 1:
+        raise ShimGap('flip on %d-d' % a.ndim)
+    return ndarray(list(reversed(a._d)), a.shape, a.dtype)
 
 
 def argwhere(a):
@@ -1200,7 +1299,9 @@ class _Shim:
         self.integer = integer
         self.floating = floating
         self.errstate = errstate
-        for name in ('append', 'empty_like', 'zeros_like', 'full', 'where', 'ndenumerate', 'resize', 'searchsorted'):
+        for name in ('append', 'empty_like', 'zeros_like', 'full', 'where', 'ndenumerate', 'resize', 'searchsorted',
+                     'flatnonzero', 'count_nonzero', 'ptp', 'argmax', 'argmin', 'clip', 'full_like', 'ones_like',
+                     'array_equal', 'logical_and', 'logical_or', 'logical_not', 'hstack', 'flip'):
             setattr(self, name, g[name])
         for name in ('array', 'asarray', 'zeros', 'empty', 'ones', 'linspace', 'arange', 'diff',
                      'concatenate', 'cumsum', 'nonzero', 'argwhere', 'minimum', 'maximum',
